@@ -28,18 +28,18 @@ Theorem C12_unsorted_refuted : forall sites, forallb (fun b => b) sites = false 
 Proof. exact unsorted_refuted. Qed.
 Print Assumptions C12_unsorted_refuted.
 
-(* regenerated table: every set-to-order site sorts, or cannot reach generated files, or is a lazy_imports loop of model.py.jinja *)
+(* regenerated table: every set-to-order site sorts, or cannot reach generated files, or is a listed known-finding site (lazy_imports loops of model.py.jinja, the member loop of int_enum.py.jinja) *)
 Theorem C12_all_loops_sorted_except_known : forallb loop_ok_or_known gen_loops = true.
 Proof. exact all_loops_sorted_except_known. Qed.
 Print Assumptions C12_all_loops_sorted_except_known.
 
-Theorem C12_all_loops_sorted_if_fixed : lazy_fixed gen_loops = true -> forallb loop_ok gen_loops = true.
+Theorem C12_all_loops_sorted_if_fixed : known_fixed gen_loops = true -> forallb loop_ok gen_loops = true.
 Proof. exact all_loops_sorted_if_fixed. Qed.
 Print Assumptions C12_all_loops_sorted_if_fixed.
 
 (* the verdict for the tree as it is now (holds before and after the fix; which branch applies is computed from the table) *)
 Theorem C12_rendering_verdict :
-  if lazy_fixed gen_loops
+  if known_fixed gen_loops
   then forall e e', Forall2 (@Permutation str) e e' -> Forall (fun l => keys_distinct lower l = true) e ->
                     render (output_sites gen_loops) e = render (output_sites gen_loops) e'
   else exists e e', Forall2 (@Permutation str) e e' /\ Forall (fun l => keys_distinct lower l = true) e /\
@@ -85,3 +85,22 @@ Print Assumptions C12_overwrite_order_independent_if_consistent.
 Theorem C12_registrations_safe : forallb reg_ok gen_registrations = true.
 Proof. exact registrations_safe. Qed.
 Print Assumptions C12_registrations_safe.
+
+(* _process_models with its recursion test: with the exact test (whole last segment = class name) the processed set is the least fixed point, for every order *)
+Theorem C12_rec_exact_order_independent : forall g todo todo', Permutation todo todo' ->
+  forall n, In n (fst (process_rec N.eqb g todo)) <-> In n (fst (process_rec N.eqb g todo')).
+Proof. exact rec_exact_order_independent. Qed.
+Print Assumptions C12_rec_exact_order_independent.
+
+Theorem C12_process_rec_complete : forall g todo n, Derivable g todo n -> In n (fst (process_rec N.eqb g todo)).
+Proof. exact process_rec_complete. Qed.
+Print Assumptions C12_process_rec_complete.
+
+Theorem C12_rec_sloppy_refuted : exists self g todo todo' n,
+  Permutation todo todo' /\ In n (fst (process_rec self g todo')) /\ ~ In n (fst (process_rec self g todo)).
+Proof. exact rec_sloppy_refuted. Qed.
+Print Assumptions C12_rec_sloppy_refuted.
+
+Theorem C12_recursion_test_is_exact : gen_recursion_test_exact = true.
+Proof. exact recursion_test_is_exact. Qed.
+Print Assumptions C12_recursion_test_is_exact.
